@@ -185,3 +185,63 @@ PROPS["C19"] = dict(pkg="c19", level="exploration",
          dict(name="real", run="^TestC19RealManagers$", quick=3000, thorough=10000, shards_quick=1, shards_thorough=4),
          dict(name="regress", kind="plain", run="^TestC19Regress", quick=None, thorough=None),
          dict(name="fuzz", kind="fuzz", run="^FuzzC19$", tiers=["thorough"], thorough="120s", parallel=8, timeout=600)])
+
+PROPS["C16"] = dict(
+    pkg="c16", level="exploration",
+    rule=("rapid draws a seed (incl. legacy-rule seeds), a recovery window W in {1,2,3,5,8,12} (thorough: sometimes 250), a chain of 20-90 blocks (thorough: sometimes 2001-2300, crossing the "
+          "recovery batch) with monotone timestamps where block F is the first with a timestamp >= the wallet's creation time, and a usage pattern built constructively to satisfy the "
+          "look-ahead condition: a paying block pays 1-4 indices in [0, h+W] per (default scope, branch) where h is the highest index paid in EARLIER blocks, with re-use, several payments "
+          "per block, same-block spends, later spends of recovered outputs with change to internal addresses within the window. Addresses come from the independent BIP32 oracle, no "
+          "original wallet exists. The wallet is created from the seed with window W, started locked or unlocked against the model backend, with optional interruptions (n-th "
+          "FilterBlocks/GetBlock/GetBlockHeader call fails once; stop and reopen during the first attempt). After the sync: tip and hashes, every used address known and marked used, every "
+          "paying/spending transaction recorded in its block, CalculateBalance(0,1,6) and ListUnspent equal the harness ledger, next index above the highest used one per scope/branch, "
+          "birthday block below F, and (unlocked) the private key of every recovered address equals the oracle's. Second unit: the exported BranchRecoveryState driven with the "
+          "expandScopeHorizons protocol and generated INVALID child indices against the model 'the W valid indices after the highest found one are watched'. "
+          "Non-trivial = >= 2 scopes/branches used, a jump of >= 2 indices and a spend of a recovered output; resp. an invalid child inside the window."),
+    assumptions=_WALLET_ASSUME + ["only the default account of the four default scopes is used (what recovery scans)", "invalid BIP32 children cannot be produced with real keys; they are covered at the BranchRecoveryState level only",
+                                 "payments occur only in blocks whose timestamp is >= the wallet's creation time; block timestamps are monotone"],
+    units=[dict(name="recovery", run="^TestC16Recovery$", quick=200, thorough=800, shards_quick=2, shards_thorough=16, timeout=3000),
+           dict(name="branch", run="^TestC16BranchRecoveryState$", quick=20000, thorough=100000, shards_quick=1, shards_thorough=4)],
+)
+PROPS["C04"] = dict(
+    pkg="c04", level="exploration",
+    rule=("mgrsim histories of 4-30 (thorough 60) operations over a real manager on a bbolt file behind proxydb (next/extend/derive/lookup/mark-used/new account/imported xpub account/"
+          "import key/P2SH,P2WSH,taproot script/passphrase change (8-20 chars, always searchable)/lock/unlock/restart/custom scope); after EVERY commit the file bytes are read and searched, "
+          "once the committing operation has returned, for every secret so far (master/purpose/coin-type/account xprv: scalar, minimal form, hex, 78-byte, base58; issued + 3 look-ahead address keys "
+          "raw/hex/WIF; imported keys; secret scripts; every passphrase ever used) and, as no transaction is ever recorded, every xpub/public key/x-only/hash160/taproot key/script hash/address string; "
+          "canary names must be found. Wrong-key oracle after create, every 5 commits, at the end and after conversion: every value/key/length-prefixed field offered to Manager.Decrypt(CKTPublic) of a "
+          "never-unlocked manager, the all-zero key, the scrypt key of the public passphrase and every 32-byte clear text so recovered; no private key/xprv/passphrase may come out. 1/3 of histories "
+          "convert to watching-only: ciphertexts the private/script key opened before are gone from the live namespace, reopen, every address still found, Unlock refused for every passphrase, every "
+          "private accessor refused, then 0-6 watching-only operations (incl. ImportPrivateKey). Wallet-level unit: wallet.Loader.CreateNewWallet on bdb, public wallet API only, file searched after "
+          "every call. Non-trivial = >= 3 commits with >= 1 import/new account/scope/passphrase change and >= 20 needles. Distinct = fingerprint of the rendered history."),
+    assumptions=_MGR_ASSUME + ["passphrases are 8-20 printable characters containing a digit; needles shorter than 8 bytes are never searched (count measured: 0)",
+                 "no transaction is recorded in any history, so public material must be hidden throughout",
+                 "secret scripts opened by the all-zero key are an observation (cryptoKeyScript is never derived on this tree), not raised",
+                 "histories that convert to watching-only import no secret taproot scripts; deletePrivateKeys has no adtTaprootScript case (observation recorded by the plain unit)",
+                 "ciphertexts-gone-after-conversion is a doc-comment-level claim (ConvertToWatchingOnly/deletePrivateKeys), asserted only for keys, imported keys, P2SH and secret P2WSH scripts",
+                 "crash images are covered by the page-superset argument (DESIGN C04 L); wallet-level unit uses an idle chain backend and sets the birthday block itself"],
+    units=[dict(name="disk", run="^TestC04NoSecretOnDisk$", quick=600, thorough=3000, shards_quick=2, shards_thorough=16, timeout=1500),
+           dict(name="wallet", run="^TestC04WalletLevel$", quick=300, thorough=1500, shards_quick=2, shards_thorough=16, timeout=1500),
+           dict(name="observe", kind="plain", run="^TestC04Observe", quick=None, thorough=None)])
+PROPS["C10"] = dict(
+    pkg="c10", level="fault_enumeration",
+    rule=("states come from C01-style store histories (3-30 events, 60 thorough) and mgrsim manager histories (2-14 steps, 30 thorough; half start unlocked); at 1-3 points per history one enabled "
+          "mutating operation is drawn with fixed arguments (store: insert unconfirmed+credits, insert confirmed block incl. move-from-unconfirmed / conflict eviction / coinbase / reconfirm, "
+          "AddCredit alone, Rollback(h), RemoveUnminedTx, LockOutput, UnlockOutput, DeleteExpiredLockedOutputs at an instant relative to an expiry, PutTxLabel; manager: Next/Extend "
+          "External/Internal addresses, NewAccount, NewAccountWatchingOnly, RenameAccount, ImportPrivateKey, ImportScript/ImportWitnessScript, MarkUsed, SetSyncedTo, SetBirthdayBlock, "
+          "ChangePassphrase public/private, NewScopedKeyManager, ConvertToWatchingOnly). The database file is copied; copy 0 runs it through a counting proxy (N mutating calls, reference result and "
+          "post-state); for EVERY k in 1..N a fresh copy (own manager, same lock state) runs it with the k-th Put/Delete/CreateBucket* failing inside one walletdb.Update. Required: error returned "
+          "(success only with the full effect, judged by the query set and the raw namespace); after the rollback the C01/C13 query set + leases + labels (store) resp. the C08 query set + AddrAccount "
+          "+ ForEachAccountAddress + per-operation account/scope probes (manager) equal the pre-operation answers on the running objects, on a fresh manager and after close/reopen; the retry (on the "
+          "running manager or on the reopened one, alternating by position) succeeds with the reference result (= oracle addresses / account number) and the reference post-state. "
+          "Non-trivial = case contains an enumeration with N >= 2; distinct positions are reported as classes pos:<kind>/<state class>/k=<k>; counters: fault-positions[:kind], enumerations[:kind], N=<n> histogram."),
+    assumptions=_TX_ASSUME + _MGR_ASSUME + [
+        "exactly one mutating call fails per run; read calls are never failed (bbolt reads cannot fail)",
+        "AddCredit alone is enumerated on a state where the record was inserted and committed first (real callers insert and credit in one transaction; that shape is the insert-* kinds)",
+        "cache entries for never-issued addresses (unissued:<addr> of the failed operation's own addresses) and the birthday timestamp are outside the compared query set (DESIGN C10 L); ignored entries are counted",
+        "manager values contain random nonces and wall-clock stamps: raw comparison for the manager uses bucket/key sets and value lengths, for the store exact bytes",
+        "states after ConvertToWatchingOnly are not continued (the conversion only ever runs on copies)"],
+    units=[dict(name="store", run="^TestC10StoreFaults$", quick=1000, thorough=3500, shards_quick=2, shards_thorough=16),
+           dict(name="manager", run="^TestC10ManagerFaults$", quick=160, thorough=500, shards_quick=2, shards_thorough=16, timeout=1500),
+           dict(name="regress", kind="plain", run="^TestC10Regress", quick=None, thorough=None)],
+)
